@@ -126,7 +126,7 @@ def do_harmless(ids, props=None):
             continue
         old = json.load(open(os.path.join(d, 'result.json'))) if os.path.exists(os.path.join(d, 'result.json')) else {}
         wt = scratch('h-' + sid[:3])
-        out = dict(name=sid, behaviour_preserving=True, tests=old.get('tests', ''), checks={})
+        out = dict(name=sid, behaviour_preserving=True, tests=old.get('tests', ''), checks=dict(old.get('checks', {})) if props else {})
         try:
             a = sh(['git', '-C', wt, 'apply', os.path.join(d, 'patch.diff')])
             assert a.returncode == 0, a.stderr
@@ -137,6 +137,8 @@ def do_harmless(ids, props=None):
             touched = {os.path.basename(l[6:].split('\t')[0].strip()).replace('.py', '') for l in open(os.path.join(d, 'patch.diff'))
                        if l.startswith('+++ b/')}
             for p in allp:
+                if props and reads.get(p) and not (reads[p] & touched):
+                    continue
                 if not props and reads.get(p) and not (reads[p] & touched):
                     out['checks'][p] = dict(exit=0, lines=[], skipped='reads none of the rewritten modules %s' % sorted(touched))
                     continue
